@@ -101,3 +101,13 @@ PROPS["C17"] = {
     "stubs": ["os.Environ bound to the harness list (natively the real environment is replaced by it)", "exec: last duplicate wins"],
     "assumptions": ["global and per-process lists do not themselves define PC_PROC_NAME / PC_REPLICA_NUM"],
 }
+
+PROPS["C06"] = {
+    "harnesses": [
+        {"pkg": "command", "name": "VerifC06_Stop", "quick": {}, "thorough": {}, "native": False,
+         "bounds": {"signal": "full int64", "pid/pgid": "[2,2^22]", "parent_only": "both", "getpgid": "ok/error"}},
+    ],
+    "stubs": ["syscall.Getpgid (arbitrary pgid or error)", "syscall.Kill (recording)", "(*os.Process).Signal (recording)"],
+    "assumptions": ["kernel semantics of signals and process groups, survival of descendants, and signal delivery to the binary are outside the claim",
+                    "counterexamples of this harness are not replayed natively (it would send real signals to arbitrary pids)"],
+}
